@@ -1,0 +1,5 @@
+//go:build !verif
+
+package env
+
+func verifEnvOp(string, *Env, string) {}
